@@ -100,6 +100,18 @@ def search_frame(seed, n):
             if not np.max(np.abs(d)) <= 1e-9 * (1 + tscale):
                 return w("edge error changed", error=np.asarray(e1.calc_error()).tolist(), error_transformed=np.asarray(e2.calc_error()).tolist()), ev, worst
         kiter = 1 if far else rng.randrange(1, 6)
+        if rng.random() < 0.3:
+            # history: the transformed graph is not built afresh - a live copy of the original is evaluated (or stepped with
+            # max_iter=0-like queries) and then every vertex array is overwritten in place with T (+) pose
+            g2 = G.rebuild(desc)
+            g2.calc_chi2()
+            for e_ in g2._edges:
+                e_.calc_error(), e_.calc_jacobians()
+            for v_ in g2._vertices:
+                v_.pose[:] = np.asarray(T + v_.pose)
+            c2b = float(g2.calc_chi2())
+            if not abs(c1 - c2b) <= tol_c:
+                return w("chi2 changed after the vertices of a live graph were moved in place", chi2=c1, chi2_transformed=c2b), ev, worst
         quiet_optimize(g, tol=0.0, max_iter=kiter, fix_first_pose=True)
         quiet_optimize(g2, tol=0.0, max_iter=kiter, fix_first_pose=True)
         if not all(np.all(np.isfinite(np.asarray(v.pose))) for v in g._vertices):
@@ -253,6 +265,33 @@ def search_representation(seed, n):
             vs = [_Vertex(v["id"], G.mk_pose(v["cls"], v["vals"]), fixed=bool(v["fixed"])) for v in d2["vertices"]]
             gB = _Graph(list(gB._edges), vs)
             variant = variant + "+reused_edge_objects"
+        if variant == "relabel" and all(e["kind"] == "odometry" for e in d2["edges"]) and desc["world"] == "2d" and rng.random() < 0.6:
+            import os as _os
+            from graphslam.graph import Graph as _Graph
+
+            big = rng.sample(range(2**53 + 1, 2**62), len(d2["vertices"]))
+            big = [b_ | 1 for b_ in big]  # odd: not representable as a double
+            if len(set(big)) == len(big):
+                remap = {v["id"]: n_ for v, n_ in zip(d2["vertices"], big)}
+                for v in d2["vertices"]:
+                    v["id"] = remap[v["id"]]
+                for e in d2["edges"]:
+                    e["vids"] = [remap[i] for i in e["vids"]]
+                idmap = {k_: remap[v_] for k_, v_ in idmap.items()}
+                path_ = "/var/tmp/gsverif_c08_%d.g2o" % _os.getpid()
+                try:
+                    G.rebuild(d2).to_g2o(path_)
+                    gB = _Graph.from_g2o(path_)
+                    fx_ = {v["id"]: bool(v["fixed"]) for v in d2["vertices"]}
+                    for v_ in gB._vertices:
+                        v_.fixed = fx_[v_.id]  # the file format does not carry the fixed flags
+                    variant = "relabel+g2o_file"
+                except Exception as ex:  # noqa
+                    found["repr:relabel:g2o-load"] = dict(kind="representation", what="relabel: a graph with ids beyond 2^53 could not be written to / read from .g2o: %s: %s" % (type(ex).__name__, ex), match="repr:relabel:g2o-load", desc=d2)
+                    break
+                finally:
+                    if _os.path.exists(path_):
+                        _os.remove(path_)
         mapB = {}
         byid = {v.id: v for v in gB._vertices}
         for v in gA._vertices:
